@@ -103,6 +103,42 @@ fn scenario(name: &str, n: usize) -> Vec<u8> {
                 w(&mut o, c.y)
             });
         }
+        // thorough only: geo algorithms over many members / long rings, above the sizes at which
+        // code typically goes parallel (an in-job race there is invisible to the job-granular stub)
+        "aggregates_many" => {
+            use geo::algorithm::{ChamberlainDuquetteArea, CoordsIter, GeodesicArea};
+            let m = mp(n);
+            w(&mut o, m.unsigned_area());
+            w(&mut o, m.signed_area());
+            if let Some(c) = m.centroid() {
+                w(&mut o, c.x());
+                w(&mut o, c.y());
+            }
+            w(&mut o, m.geodesic_area_signed());
+            w(&mut o, m.geodesic_perimeter());
+            w(&mut o, m.chamberlain_duquette_unsigned_area());
+            if let Some(r) = m.bounding_rect() {
+                w(&mut o, r.min().x);
+                w(&mut o, r.max().y);
+            }
+            o.extend_from_slice(&(m.coords_count() as u64).to_le_bytes());
+        }
+        "hulls_many" => {
+            let m = mp(n);
+            wpoly(&mut o, &m.convex_hull());
+            let pts = MultiPoint::new(m.0.iter().flat_map(|p| p.exterior().0.iter().map(|c| Point(*c))).collect());
+            wpoly(&mut o, &pts.convex_hull());
+        }
+        "simplify_long" => {
+            use geo::algorithm::Simplify;
+            let l = LineString::new((0..n * 8).map(|i| Coord { x: i as f64 * 0.1, y: ((i * 37 % 101) as f64) * 0.013 + (i as f64 * 0.05).sin() }).collect());
+            let sl = l.simplify(0.05);
+            o.extend_from_slice(&(sl.0.len() as u64).to_le_bytes());
+            sl.0.iter().for_each(|c| {
+                w(&mut o, c.x);
+                w(&mut o, c.y)
+            });
+        }
         // thorough only: the whole geo crate under the interpreter
         "overlay_small" => {
             let a = mp(5);
